@@ -197,7 +197,12 @@ class BodyPart:
         #   Each part MAY have an (optional) "Content-Type" header field, which
         #   defaults to "text/plain".
         value = self._headers.get(b'content-type', b'text/plain')
-        return value.decode('ascii')
+        try:
+            return value.decode('ascii')
+        except ValueError as err:
+            raise MultipartParseError(
+                description='invalid Content-Type header of a body part'
+            ) from err
 
     @property
     def filename(self) -> Optional[str]:
@@ -205,7 +210,12 @@ class BodyPart:
         if self._filename is _UNSET:
             if self._content_disposition is None:
                 value = self._headers.get(b'content-disposition', b'')
-                self._content_disposition = parse_header(value.decode())
+                try:
+                    self._content_disposition = parse_header(value.decode())
+                except ValueError as err:
+                    raise MultipartParseError(
+                        description='invalid Content-Disposition header of a body part'
+                    ) from err
 
             _, params = self._content_disposition
 
@@ -260,7 +270,12 @@ class BodyPart:
         if self._name is _UNSET:
             if self._content_disposition is None:
                 value = self._headers.get(b'content-disposition', b'')
-                self._content_disposition = parse_header(value.decode())
+                try:
+                    self._content_disposition = parse_header(value.decode())
+                except ValueError as err:
+                    raise MultipartParseError(
+                        description='invalid Content-Disposition header of a body part'
+                    ) from err
 
             _, params = self._content_disposition
             self._name = params.get('name')
